@@ -316,6 +316,11 @@ class Epoch(object):
         77.184
         """
 
+        # If the input is another Epoch object, read its value before cleaning
+        # up: It may be this very object
+        other_jde = None
+        if len(args) == 1 and isinstance(args[0], Epoch):
+            other_jde = args[0]._jde
         # Clean up the internal parameters
         self._jde = 0.0
         # If no arguments are given, return. Internal values are 0.0
@@ -325,7 +330,7 @@ class Epoch(object):
         # a tuple with year, month, day, etc or a datetime object
         elif len(args) == 1:
             if isinstance(args[0], Epoch):
-                self._jde = args[0]._jde
+                self._jde = other_jde
                 year, month, day, hours, minutes, sec = self.get_full_date()
             elif isinstance(args[0], (int, float)):
                 self._jde = args[0]
